@@ -141,7 +141,8 @@ def tlc(d, module, cfg, workers=1, timeout=1200, extra=None, simulate=None):
     m = TLC_STATES.findall(out)
     gen, dist = (int(m[-1][0]), int(m[-1][1])) if m else (0, 0)
     r = {"out": out, "generated": gen, "distinct": dist, "rc": p.returncode}
-    r["violated"] = "is violated" in out or "Postcondition" in out and "is false" in out
+    r["violated"] = ("is violated" in out or ("Postcondition" in out and "is false" in out)
+                     or ("The invariant of" in out and "is equal to FALSE" in out))
     r["ok"] = "No error has been found" in out or (simulate and p.returncode == 0)
     if not r["ok"] and not r["violated"]:
         raise Infra("TLC error on %s/%s:\n%s" % (module, cfg, out[-5000:]))
